@@ -9,7 +9,7 @@ import unicodedata
 import z3
 
 from . import core
-from .core import Unsupported, mk, tobool, SymBool, SymInt, symint
+from .core import Unsupported, mk, tobool, SymBool, SymInt, symint, zand, zor, znot
 
 
 # ---------------------------------------------------------------------- character domains
@@ -25,6 +25,18 @@ def _ranges(codes):
 
 _ALL_SPACE = [c for c in range(0x110000) if chr(c).isspace()]
 _ALL_DIGIT_BLOCKS = None
+
+
+def _int_strips(c):
+    try:
+        int(chr(c) + '1')
+        int('1' + chr(c))
+        return True
+    except ValueError:
+        return False
+
+
+_INT_SPACE = frozenset(c for c in _ALL_SPACE if _int_strips(c))
 
 
 def _digit_blocks():
@@ -95,6 +107,9 @@ class Domain:
                     if s.lower()[i] != chr(self.lower_map.get(c, c)) or len(s.lower()) != len(s):
                         raise ValueError('context dependent lower() at U+%04X' % c)
         self.space_ranges = _ranges(self.space)
+        # int() strips a different set than str.strip(): U+001C..U+001F are not stripped
+        # (measured on this interpreter at start-up, see _INT_SPACE)
+        self.int_space_ranges = _ranges([c for c in self.space if c in _INT_SPACE])
 
     # constraint that a fresh character is in the domain
     def member(self, c):
@@ -106,6 +121,11 @@ class Domain:
         if isinstance(c, int):
             return chr(c).isspace()
         return _in_ranges(c, self.space_ranges)
+
+    def is_int_space(self, c):
+        if isinstance(c, int):
+            return c in _INT_SPACE
+        return _in_ranges(c, self.int_space_ranges)
 
     def is_digit(self, c):
         """decimal digit in the sense of int() and regex \\d"""
@@ -279,7 +299,7 @@ class SymStr:
             return z3.BoolVal(False)
         if not b:
             return z3.BoolVal(True)
-        return z3.And([ceq(x, y) for x, y in zip(self.cs, b)])
+        return zand([ceq(x, y) for x, y in zip(self.cs, b)])
 
     def __eq__(self, o):
         if not isinstance(o, (str, SymStr)):
@@ -295,7 +315,7 @@ class SymStr:
     def __ne__(self, o):
         r = self.__eq__(o)
         if isinstance(r, SymBool):
-            return mk(z3.Not(r.e))
+            return mk(znot(r.e))
         return not r
 
     def _lt(self, o, strict_or_eq):
@@ -375,7 +395,7 @@ class SymStr:
     def isspace(self):
         if not self.cs:
             return False
-        return mk(z3.And([tobool(self._ws(c)) for c in self.cs]))
+        return mk(zand([tobool(self._ws(c)) for c in self.cs]))
 
     def isdigit(self):
         raise Unsupported('str.isdigit')
@@ -385,7 +405,7 @@ class SymStr:
         if chars is None:
             return lambda c: mk(tobool(self._ws(c)))
         cc = chars_of(chars)
-        return lambda c: mk(z3.Or([ceq(c, x) for x in cc]) if cc else z3.BoolVal(False))
+        return lambda c: mk(zor([ceq(c, x) for x in cc]) if cc else z3.BoolVal(False))
 
     def rstrip(self, chars=None):
         p = self._strip_pred(chars)
@@ -485,7 +505,7 @@ class SymStr:
     def _match_at(self, sub, i):
         if not sub:
             return z3.BoolVal(True)
-        return z3.And([ceq(self.cs[i + j], sub[j]) for j in range(len(sub))])
+        return zand([ceq(self.cs[i + j], sub[j]) for j in range(len(sub))])
 
     def find(self, sub, start=0, end=None):
         sub = chars_of(sub)
@@ -622,7 +642,13 @@ def sym_int(s):
     if isinstance(s, str):
         return int(s)
     d = core.ENG.domain
-    t = s.strip()
+    cs = s.cs
+    a, b = 0, len(cs)
+    while a < b and mk(tobool(d.is_int_space(cs[a]))):
+        a += 1
+    while b > a and mk(tobool(d.is_int_space(cs[b - 1]))):
+        b -= 1
+    t = simp(cs[a:b])
     if isinstance(t, str):
         return int(t)
     cs = t.cs
@@ -630,7 +656,7 @@ def sym_int(s):
         raise ValueError('invalid literal for int() with base 10')
     i = 0
     neg = False
-    if mk(z3.Or(ceq(cs[0], 45), ceq(cs[0], 43))):
+    if mk(zor([ceq(cs[0], 45), ceq(cs[0], 43)])):
         neg = bool(mk(ceq(cs[0], 45)))
         i = 1
     if i >= len(cs):
@@ -660,19 +686,26 @@ def is_space(ch):
     return ch.isspace()
 
 
+def is_int_space(ch):
+    """whitespace that int() strips (not identical to str.isspace: U+001C..U+001F are kept)"""
+    if isinstance(ch, str):
+        return ord(ch) in _INT_SPACE
+    return mk(tobool(core.ENG.domain.is_int_space(ch.cs[0])))
+
+
 def char_in(ch, lo, hi):
     """single character in the inclusive range lo..hi"""
     if isinstance(ch, str):
         return len(ch) == 1 and lo <= ch <= hi
     c = ch.cs[0]
-    return mk(z3.And(c >= ord(lo), c <= ord(hi)))
+    return mk(zand([c >= ord(lo), c <= ord(hi)]))
 
 
 def char_is(ch, *alts):
     if isinstance(ch, str):
         return ch in alts
     c = ch.cs[0]
-    return mk(z3.Or([ceq(c, ord(a)) for a in alts]))
+    return mk(zor([ceq(c, ord(a)) for a in alts]))
 
 
 def is_ascii_alpha(ch):
